@@ -241,6 +241,12 @@ case("C03", "alias-ref-to-subquery-item-duplicates-rows", "a select-list alias r
      {"outcome": "rows", "rows": [["abc", 20, 21], ["B", 20, 21]]}, {"outcome": "rows", "rows": [["abc", 20, 21], ["B", 20, 21], ["abc", 20, 21], ["B", 20, 21]]},
      ["C01", "C06", "C09"])
 
+case("C02", "optimizer-semi-join-constant-operand-loses-rows", "with the optimizer on, WHERE <constant> IN/ANY (uncorrelated subquery) over a filtered CTE or derived table loses the multiplicity of the outer rows (the semi join has no outer column, the join-reorder pass treats it as an unconnected relation; debug builds often hit the join-reorder assertion instead). Correct with enable_optimizer=false",
+     ["CREATE TEMP TABLE t0 (b0 BIGINT)", "INSERT INTO t0 VALUES (3)", "CREATE TEMP TABLE t1 (c1 INT)", "INSERT INTO t1 VALUES (7), (7)"],
+     "WITH cte9 AS (SELECT c1 AS z8 FROM t1 WHERE c1 IS NOT NULL) SELECT 'x' FROM cte9 WHERE (0::bigint <> ANY (SELECT b0 FROM t0))",
+     {"outcome": "rows", "rows": [["x"], ["x"]]}, [{"outcome": "rows", "rows": [["x"]]}, {"outcome": "panic", "contains": "all_non_empty_edges_removed"}],
+     ["C01", "C09", "C03"])
+
 case("C07", "grouping-function-argument-order", "GROUPING(args) ignores the order of its arguments and mishandles expression keys: the bitmask follows the position of the keys in the GROUP BY list instead of the argument order documented in docs/sql/query-syntax/group-by.md (rightmost argument = least significant bit)",
      ["CREATE TEMP TABLE g (k INT)", "INSERT INTO g VALUES (1)"],
      "SELECT (k % 2) AS z2, grouping((k % 2), k) AS z3 FROM g GROUP BY CUBE (k, (k % 2))",
